@@ -92,6 +92,20 @@ def smear_direction_rule(chk, repo, clause):
            fs.loc())
     a_ok = bool(det_) and all(any(is_app(a, 'deg2rad') and a[2][0] == S('angle') for a in nf.value_atoms(p.ret)) for p in det_)
     chk.ob(clause, 'D-flow', fs.key, 'a given angle (degrees) is what the kernel is rotated by', a_ok, '', fs.loc())
+    # ... by one and the same angle: the sine and the cosine of the projection take the same argument (in radians)
+    def trig_args(p):
+        return {nf.vkey(a[2][0]): a[2][0] for a in nf.value_atoms(p.ret) if is_app(a, ('sin', 'cos')) and a[2]}
+    t_ok, t_det = True, ''
+    for p in returns(sp):
+        ta = trig_args(p)
+        if not ta:
+            continue
+        want_det = nf.app('deg2rad', S('angle'))
+        if len(ta) != 1 or (p in det_ and list(ta.values())[0] != want_det):
+            t_ok = False
+            t_det = f'[{conds_str(p)[:60]}] sine / cosine are taken of ' + ' and '.join(sorted(fmt(v)[:40] for v in ta.values()))
+    chk.ob(clause, 'D-flow', fs.key, 'sine and cosine of the projection take the same angle, in radians', t_ok,
+           t_det or 'one angle per path', fs.loc())
 
 
 def run(chk, repo, tier):
@@ -206,6 +220,14 @@ def run(chk, repo, tier):
                     det_k = f'kernel[i, j] = {fmt(el)[:200]}'
                 except Unsupported as ex:
                     det_k = f'undecided: kernel not understood element-wise ({ex})'
+                    ka_ = kernel.single_atom() if isinstance(kernel, Poly) else None
+                    if ka_ is not None and is_app(ka_, 'setitem') and len(ka_[2]) == 3 and isinstance(ka_[2][2], Poly) \
+                            and ka_[2][2].const_value() is not None:
+                        # entries of the transfer function are overwritten with a constant after it was built: at those
+                        # frequencies the filter is no longer the pixel's sinc (whatever index picks them - n//2 is the
+                        # Nyquist bin for even n only, a paired frequency for odd n and the DC bin for n = 1)
+                        okk = False
+                        det_k = f'kernel[{fmt(ka_[2][1])[:60]}] = {fmt(ka_[2][2])} overwrites the transfer function there'
                 chk.ob('C19-e', 'N-const', key, 'pixel transfer function sinc(f_row*oversample)*sinc(f_col*oversample), sign included', okk,
                        det_k, f.loc(p.node))
             if key == 'convolvable.jitter':
